@@ -11,6 +11,7 @@ from .fam_dmn import Dmn
 from .fam_shut import Shut
 from .fam_kern import Kern
 from .fam_race import Race
+from .fam_conc import Conc
 
 PROPS = {}
 
@@ -161,6 +162,14 @@ RACE_TB = ["hand model Model/Race.v of event_loop.rs run()/handle_event, vring.r
            "Spec/RaceSpec.v: my transcription of C12 over schedule logs", "the hold-point hooks (vhost::vhost_user::verif_hooks::hold) park the thread and change nothing else"]
 reg(id="C12", props="Props/C12.v", proof_files=["Proofs/RaceBase.v", "Proofs/RaceProofs.v"], families=[Race()], rule=RACE_RULE, trusted_base=RACE_TB,
     assumptions=DMN_ASSUME)
+CONC_RULE = ("family conc: 2..3 threads released together, each calling one operation (reply-bearing get_vring_base / get_queue_num / get_features, acknowledged "
+             "set_vring_num, unacknowledged set_vring_base; shared_object_add on the Backend proxy; get_protocol_features on the GpuBackend) through clones of one endpoint, "
+             "against a scripted raw peer that delays every answer by 10-20 ms while polling the socket: a request arriving while another is unanswered is an overlap; "
+             "replies are tagged by the request (GET_VRING_BASE index -> 1000+index) so each caller checks it got its own; a 3 s watchdog detects self-deadlock")
+CONC_TB = ["rs2v lock events (self.node() / .lock() acquisitions, drop(), socket traffic per method)", "Model/Conc.v: calls of the regenerated shape as lock/send/recv/unlock steps",
+           "std::sync::Mutex mutual exclusion; a MutexGuard bound by let lives to the end of the method body"]
+reg(id="C10", props="Props/C10.v", proof_files=["Proofs/ConcProofs.v"], families=[Conc()], rule=CONC_RULE, trusted_base=CONC_TB,
+    assumptions=["std::sync::Mutex mutual exclusion", "Rust drop order: a guard bound by let is released at the end of its scope"])
 reg(id="BE-DEV",
     props="Props/C20.v",
     families=[Be()],
